@@ -87,7 +87,7 @@ func NewDisk(s *Sim, root string) *Disk {
 
 func (d *Disk) SetWorkDir(node, dir string) {
 	d.mu.Lock()
-	d.workdirs[node] = filepath.Clean(dir)
+	d.workdirs[node] = absClean(dir)
 	d.mu.Unlock()
 }
 
@@ -190,7 +190,7 @@ func relPaths(ps []string, root string) []string {
 func normName(p string) string {
 	parts := strings.Split(p, string(filepath.Separator))
 	for i, s := range parts {
-		if strings.HasPrefix(s, "crl_") && strings.HasSuffix(s, "_tmp") {
+		if len(s) >= 8 && strings.HasPrefix(s, "crl_") && strings.HasSuffix(s, "_tmp") {
 			parts[i] = "crl_*_tmp"
 		}
 	}
